@@ -202,7 +202,11 @@ Proof.
 Qed.
 
 Lemma NoDup_firstn' {A} (n : nat) (l : list A) : NoDup l -> NoDup (firstn n l).
-Proof. intros H. rewrite <- (firstn_skipn n l) in H. apply NoDup_app_remove_r in H. exact H. Qed.
+Proof.
+  revert l. induction n as [|n IH]; intros l H; [constructor|]. destruct l as [|x l]; [constructor|].
+  inversion H as [|? ? Hx Hl]; subst. cbn [firstn]. constructor; [|apply IH, Hl].
+  intros Hi. apply Hx. rewrite <- (firstn_skipn n l). apply in_or_app. left. exact Hi.
+Qed.
 
 (* queue.remove of a queued tx: it moves to limbo *)
 Lemma SL_q_remove : forall st L a t fl,
@@ -264,4 +268,115 @@ Proof.
         split; [intros x; rewrite M'; cbn [in_opt] in M1; rewrite M1; cbn [In]; intuition congruence|].
         split; [intros b Hb; rewrite (O' b Hb), Q1; unfold upd; destruct (b =? a) eqn:E; [apply N.eqb_eq in E; contradiction | reflexivity]|].
         repeat split; congruence.
+Qed.
+
+Lemma In_firstn' {A} (n : nat) (l : list A) x : In x (firstn n l) -> In x l.
+Proof. intros H. rewrite <- (firstn_skipn n l). apply in_or_app. left. exact H. Qed.
+
+Lemma q_truncate_loop_SL : forall addrs drop removed st L r s,
+  SL st L -> (forall x, In x L <-> In x removed) ->
+  q_truncate_loop addrs drop removed st = (r, s) ->
+  (exists L', SL s L' /\ (forall x, In x L' <-> In x r)) /\
+  p_pending s = p_pending st /\ p_cfg s = p_cfg st /\ p_chain s = p_chain st.
+Proof.
+  induction addrs as [|a addrs IH]; intros drop removed st L r s HS HL E; cbn [q_truncate_loop] in E.
+  - inversion E; subst. split; [exists L; tauto | tauto].
+  - destruct drop as [|d]; [inversion E; subst; split; [exists L; tauto | tauto]|].
+    destruct (p_queue st a) as [l|] eqn:Eq; [|eapply IH; eassumption].
+    destruct (l_qw _ _ HS a l Eq) as [Lq _].
+    pose proof (sorted_NoDup _ (lw_sorted _ (lk_wf _ _ _ _ Lq))) as Hnd.
+    destruct (Nat.leb (length (l_txs l)) (S d)).
+    + destruct (SL_q_remove_many (l_txs l) st L a l HS Eq Hnd (fun x H => H)) as [[L1 [S1 M1]] [_ [_ [P1 [C1 Ch1]]]]].
+      assert (HL1 : forall x, In x L1 <-> In x (removed ++ l_txs l)) by (intros x; rewrite M1, in_app_iff, HL; tauto).
+      destruct (IH _ _ _ L1 r s S1 HL1 E) as [HL' [P' [C' Ch']]].
+      split; [exact HL' | repeat split; congruence].
+    + assert (Hnd' : NoDup (firstn (S d) (rev (l_txs l)))) by (apply NoDup_firstn', NoDup_rev, Hnd).
+      destruct (SL_q_remove_many (firstn (S d) (rev (l_txs l))) st L a l HS Eq Hnd') as [[L1 [S1 M1]] [_ [_ [P1 [C1 Ch1]]]]].
+      * intros x Hx. apply in_rev. eapply In_firstn', Hx.
+      * assert (HL1 : forall x, In x L1 <-> In x (removed ++ firstn (S d) (rev (l_txs l)))) by (intros x; rewrite M1, in_app_iff, HL; tauto).
+        destruct (IH _ _ _ L1 r s S1 HL1 E) as [HL' [P' [C' Ch']]].
+        split; [exact HL' | repeat split; congruence].
+Qed.
+
+(* truncateQueue *)
+Lemma truncate_queue_SInv : forall st, SInv st ->
+  SInv (truncate_queue st) /\ p_cfg (truncate_queue st) = p_cfg st /\ p_chain (truncate_queue st) = p_chain st /\
+  p_pending (truncate_queue st) = p_pending st.
+Proof.
+  intros st HS. unfold truncate_queue.
+  destruct (Nat.leb (queue_count st) (N.to_nat (c_gqueue (p_cfg st)))); [tauto|].
+  destruct (q_truncate_loop (queue_by_beat st) (queue_count st - N.to_nat (c_gqueue (p_cfg st))) [] st) as [removed st1] eqn:E.
+  destruct (q_truncate_loop_SL _ _ _ _ [] removed st1 (SL_of_SInv _ HS) (fun x => iff_refl _) E) as [[L1 [S1 M1]] [P1 [C1 Ch1]]].
+  pose proof (SL_fold_all_remove (fun _ s => s) (fun _ _ => eq_refl) removed st1 L1 S1) as H. cbv beta in H.
+  destruct H as [[L' [S' M']] [P' [Q' [C' Ch']]]].
+  { intros x Hx. apply (l_limbo _ _ S1), M1, Hx. }
+  set (st2 := fold_left (fun s t => all_remove t s) removed st1) in *.
+  pose proof (core_priced_removed (length removed) st2) as Hc.
+  split; [|core_inv Hc; repeat split; congruence].
+  eapply SInv_core; [exact Hc|]. eapply SInv_of_SL; [exact S'|].
+  intros t Ht. apply M' in Ht. destruct Ht as [H1 H2]. apply H2, M1, H1.
+Qed.
+
+Lemma NoDup_app_disj {A} (a b : list A) x : NoDup (a ++ b) -> In x a -> ~ In x b.
+Proof.
+  induction a as [|y a IH]; intros H Ha; [destruct Ha|]. cbn [app] in H. inversion H as [|? ? Hy Hr]; subst.
+  destruct Ha as [->|Ha]; [intros Hb; apply Hy, in_or_app; right; exact Hb | apply IH; assumption].
+Qed.
+
+Lemma list_cap_spec : forall c s a l th caps l', lok c s a l -> list_cap th l = (caps, l') ->
+  lok c s a l' /\ (forall x, In x (l_txs l) <-> In x (l_txs l') \/ In x caps) /\
+  (forall x, In x caps -> ~ In x (l_txs l')).
+Proof.
+  intros c s a l th caps l' L E. pose proof (list_cap_wf _ _ _ _ (lk_wf _ _ _ _ L) E) as W'.
+  unfold list_cap, sm_cap in E. destruct (Nat.leb (length (l_txs l)) th).
+  - inversion E; subst. cbn [with_txs l_txs] in *. split; [|split; [intros x; cbn; tauto | intros x []]].
+    split; [exact W' | apply (lk_strict _ _ _ _ L) | apply (lk_mem _ _ _ _ L)].
+  - inversion E; subst. cbn [with_txs l_txs] in *.
+    pose proof (sorted_NoDup _ (lw_sorted _ (lk_wf _ _ _ _ L))) as Hnd. rewrite <- (firstn_skipn th (l_txs l)) in Hnd.
+    split; [|split].
+    + split; [exact W' | apply (lk_strict _ _ _ _ L) |]. cbn [l_txs]. intros x Hx. apply (lk_mem _ _ _ _ L). eapply In_firstn', Hx.
+    + intros x. rewrite <- in_rev. rewrite <- (firstn_skipn th (l_txs l)) at 1. apply in_app_iff.
+    + intros x Hx Hf. apply in_rev in Hx. eapply NoDup_app_disj; eassumption.
+Qed.
+
+Definition RS (st st' : pool) : Prop := SInv st' /\ p_cfg st' = p_cfg st /\ p_chain st' = p_chain st.
+
+Lemma RS_refl : forall st, SInv st -> RS st st. Proof. intros st H. split; [exact H | split; reflexivity]. Qed.
+Lemma RS_step : forall st st1 st2, RS st st1 -> (SInv st1 -> RS st1 st2) -> RS st st2.
+Proof. intros st st1 st2 [S1 [C1 Ch1]] H. destruct (H S1) as [S2 [C2 Ch2]]. split; [exact S2 | split; congruence]. Qed.
+Lemma RS_core : forall st st1 st2, RS st st1 -> core st2 = core st1 -> RS st st2.
+Proof. intros st st1 st2 [S1 [C1 Ch1]] Hc. split; [eapply SInv_core; eassumption|]. core_inv Hc. split; congruence. Qed.
+
+(* one fairness step of truncatePending *)
+Lemma trunc_one_RS : forall a st, SInv st -> RS st (trunc_one a st).
+Proof.
+  intros a st HS. unfold trunc_one. destruct (p_pending st a) as [l|] eqn:Ep; [|apply RS_refl, HS].
+  destruct (list_cap (Nat.pred (l_len l)) l) as [caps l'] eqn:Ec.
+  pose proof (SL_of_SInv _ HS) as S0. destruct (l_pw _ _ S0 a l Ep) as [Lp Ha].
+  destruct (list_cap_spec _ _ _ _ _ _ _ Lp Ec) as [Lp' [Mem Dis]].
+  set (st1 := put_pending a l' st).
+  assert (F1 : (forall b, p_pending st1 b = upd (p_pending st) a (Some l') b) /\ p_queue st1 = p_queue st /\
+               p_all st1 = p_all st /\ p_slots st1 = p_slots st /\ p_cfg st1 = p_cfg st /\ p_chain st1 = p_chain st /\
+               p_panic st1 = p_panic st).
+  { unfold st1, put_pending. rewrite (chk_ok _ _ _ _ _ Lp'). cbn. repeat split; auto. }
+  destruct F1 as [P1 [Q1 [Al1 [Sl1 [C1 [Ch1 Pa1]]]]]].
+  assert (S1 : SL st1 (caps ++ [])).
+  { apply (SL_shrink_pending st st1 [] a l (Some l') caps S0 Ep); try assumption.
+    intros l0 Hl0. inversion Hl0; subst. exact Lp'. }
+  pose proof (SL_fold_all_remove (fun t s => pn_set_if_lower a (t_nonce t) s)
+                (fun t s => core_pn_set_if_lower a (t_nonce t) s) caps st1 _ S1) as H. cbv beta in H.
+  destruct H as [[L' [S' M']] [P' [Q' [C' Ch']]]].
+  { intros x Hx. apply (l_limbo _ _ S1), in_or_app. left. exact Hx. }
+  set (st2 := fold_left (fun s t => pn_set_if_lower a (t_nonce t) (all_remove t s)) caps st1) in *.
+  assert (R2 : RS st st2).
+  { split; [|split; congruence]. eapply SInv_of_SL; [exact S'|].
+    intros t Ht. apply M' in Ht. destruct Ht as [H1 H2]. apply in_app_iff in H1. destruct H1 as [H1|[]]. contradiction. }
+  eapply RS_core; [exact R2 | apply core_priced_removed].
+Qed.
+
+Lemma trunc_fold_RS : forall offs p st, SInv st ->
+  RS st (snd (fold_left (fun '(p, s) a => (Nat.pred p, trunc_one a s)) offs (p, st))).
+Proof.
+  induction offs as [|a offs IH]; intros p st HS; cbn [fold_left snd]; [apply RS_refl, HS|].
+  eapply RS_step; [apply (trunc_one_RS a st HS)|]. intros S1. apply IH, S1.
 Qed.
